@@ -31,8 +31,10 @@ import vunit
 
 ROOT = vunit.ROOT
 REPO = vunit.REPO
-KANI_FLAGS = ['-Z', 'function-contracts', '-Z', 'stubbing', '-Z', 'concrete-playback', '--concrete-playback=print', '--output-format', 'terse']
+KANI_BASE = ['-Z', 'function-contracts', '-Z', 'stubbing', '--output-format', 'terse']
+KANI_FLAGS = KANI_BASE + ['-Z', 'concrete-playback', '--concrete-playback=print']      # single harness only (incompatible with -j)
 
+JOBS = int(os.environ.get('VERIF_JOBS', '12'))
 SIZES = {'bool': 1, 'u8': 1, 'i8': 1, 'u16': 2, 'i16': 2, 'u32': 4, 'i32': 4, 'char': 4, 'u64': 8, 'i64': 8, 'usize': 8, 'isize': 8, 'f64': 8, 'f32': 4}
 
 
@@ -72,6 +74,22 @@ def parse_kspec(path):
                 c[kw] = arg
             u['canaries'].append(c)
     u.setdefault('mode', 'crate')
+    if u['mode'] == 'crate':
+        # python-side generators (tables derived from external oracles such as the Unicode Character Database)
+        import importlib.util
+        for gname, sec in u['generators']:
+            sp = importlib.util.spec_from_file_location('gen_' + u['unit'], os.path.join(ROOT, 'kani', gname))
+            mod = importlib.util.module_from_spec(sp)
+            sp.loader.exec_module(mod)
+            g = mod.generate(REPO)
+            u['helpers'] += g.get('helpers', [])
+            u['nested'] += g.get('nested', [])
+            for h in g.get('harnesses', []):
+                hh = {'tier': 'quick', 'timeout': 300, 'inputs': [], 'covers': [], 'stubs': []}
+                hh.update(h)
+                u['harnesses'].append(hh)
+            u['canaries'] += g.get('canaries', [])
+            u.setdefault('gen_assumptions', []).extend(g.get('assumptions', []))
     return u
 
 
@@ -141,11 +159,27 @@ def decode_playback(text, inputs):
 
 
 def parse_kani_output(text):
-    """-> {harness_full_name: {status, failed_checks, time_s, playback}}"""
+    """-> {harness_full_name: {status, failed_checks, time_s, playback}} ; handles the `Thread N:` prefixes of -j runs"""
     res = {}
-    parts = re.split(r'^Checking harness (\S+?)\.\.\.\s*$', text, flags=re.M)
-    for i in range(1, len(parts), 2):
-        name, body = parts[i], parts[i + 1]
+    blocks = {}         # harness -> text
+    cur = {}            # thread id -> harness
+    active = None
+    for line in text.split('\n'):
+        m = re.match(r'^(?:Thread (\d+): )?Checking harness (\S+?)\.\.\.\s*$', line)
+        if m:
+            tid = m.group(1) or '-'
+            cur[tid] = m.group(2)
+            blocks.setdefault(m.group(2), [])
+            active = m.group(2)
+            continue
+        m = re.match(r'^Thread (\d+): ?(.*)$', line)
+        if m:
+            active = cur.get(m.group(1))
+            line = m.group(2)
+        if active is not None:
+            blocks[active].append(line)
+    for name, lines in blocks.items():
+        body = '\n'.join(lines)
         st = None
         if 'VERIFICATION:- SUCCESSFUL' in body:
             st = 'success'
@@ -153,10 +187,8 @@ def parse_kani_output(text):
             st = 'failed'
         failed = re.findall(r'^Failed Checks: (.*?)\n\s*File: "([^"]*)", line (\d+), in (\S+)', body, flags=re.M)
         t = re.search(r'Verification Time: ([0-9.]+)s', body)
-        unwind = 'unwinding assertion' in body and st == 'failed'
         res[name] = {'status': st, 'failed_checks': [{'check': f[0], 'file': f[1], 'line': int(f[2]), 'in': f[3]} for f in failed],
                      'time_s': float(t.group(1)) if t else None, 'raw': body[-3000:], 'unwinding_failure': bool(re.search(r'Failed Checks: unwinding assertion', body))}
-    # playback blocks
     for m in re.finditer(r'Concrete playback unit test for `([^`]+)`:\s*```(.*?)```', text, re.S):
         if m.group(1) in res:
             res[m.group(1)]['playback_text'] = m.group(2)
@@ -265,6 +297,7 @@ def run_crate_unit(unit, tier, seed, scratch=None, do_canaries=True, only=None):
            'assumptions': ['[kani] error-chain built with default-features = false (no backtrace capture); otherwise the crate is compiled unchanged',
                            '[kani] CBMC/kissat bit-precise semantics of the Kani MIR translation; std library code is executed symbolically, not specified'],
            'obligations': 0, 'discharged': 0}
+    res['assumptions'] += unit.get('gen_assumptions', [])
     t0 = time.time()
     try:
         if own:
@@ -273,13 +306,21 @@ def run_crate_unit(unit, tier, seed, scratch=None, do_canaries=True, only=None):
         if not names:
             res.update(status='pass', note='no harness in this tier', wall_s=0)
             return res
-        cmd = ['cargo', 'kani'] + KANI_FLAGS + ['-j', str(min(8, max(1, len(names))))]
+        cmd = ['cargo', 'kani'] + KANI_BASE + ['-j', str(min(JOBS, max(1, len(names))))]
         for n, (fn, h) in names.items():
             cmd += ['--harness', fn]
-        tmo = max(h.get('timeout', 300) for _, h in names.values()) + 240
-        rc, out, wall = run_cmd(cmd, scratch.dir, tmo)
+        tmo = max(h.get('timeout', 300) for _, h in names.values()) * (1 + len(names) // JOBS) + 240
+        rc, out, wall = run_cmd(cmd, scratch.dir, tmo, mem_gb=56)
         res['checker_cmd'] = 'CARGO_NET_OFFLINE=true ' + ' '.join(cmd) + '   (in a scratch copy of /repo with harnesses injected under #[cfg(kani)])'
         parsed = parse_kani_output(out)
+        # a failed harness is re-run alone to obtain Kani's concrete counterexample (playback is incompatible with -j)
+        for n, (fn, h) in names.items():
+            for k in [k for k in parsed if (k.endswith('::' + fn) or k == fn) and parsed[k]['status'] == 'failed']:
+                rc2, out2, w2 = run_cmd(['cargo', 'kani'] + KANI_FLAGS + ['--harness', fn], scratch.dir, h.get('timeout', 300) + 240, mem_gb=56)
+                p2 = parse_kani_output(out2)
+                for k2, v2 in p2.items():
+                    if k2 == k and v2.get('playback_text'):
+                        parsed[k]['playback_text'] = v2['playback_text']
         status = 'pass'
         notes = []
         if not parsed:
@@ -380,11 +421,18 @@ def run_standalone_unit(unit, tier, seed):
             path = os.path.join(wd, unit['unit'].lower() + '.rs')
             open(path, 'w', encoding='utf-8').write(g['rs'])
             hs = [h for h in g['harnesses'] if not (tier == 'quick' and h.get('tier') == 'thorough')]
-            cmd = ['kani', path] + KANI_FLAGS + ['-j', str(min(8, max(1, len(hs))))]
+            cmd = ['kani', path] + KANI_BASE + ['-j', str(min(JOBS, max(1, len(hs))))]
             for h in hs:
                 cmd += ['--harness', h['name']]
-            rc, out, wall = run_cmd(cmd, wd, max(h.get('timeout', 300) for h in hs) + 120)
-            return g, hs, cmd, parse_kani_output(out), out
+            rc, out, wall = run_cmd(cmd, wd, max(h.get('timeout', 300) for h in hs) * (1 + len(hs) // JOBS) + 120, mem_gb=56)
+            parsed = parse_kani_output(out)
+            for h in hs:
+                for k in [k for k in parsed if k.endswith(h['name']) and parsed[k]['status'] == 'failed']:
+                    rc2, out2, w2 = run_cmd(['kani', path] + KANI_FLAGS + ['--harness', h['name']], wd, h.get('timeout', 300) + 120, mem_gb=56)
+                    for k2, v2 in parse_kani_output(out2).items():
+                        if k2 == k and v2.get('playback_text'):
+                            parsed[k]['playback_text'] = v2['playback_text']
+            return g, hs, cmd, parsed, out
         g, hs, cmd, parsed, out = one()
         res['checker_cmd'] = ' '.join(cmd) + '   (file generated from the current text of /repo/src by kani/%s)' % unit['generators'][0][0]
         res['assumptions'] = g.get('assumptions', [])
